@@ -11,6 +11,7 @@ use routinator::slurm::LocalExceptions;
 use crate::gen::Published;
 
 pub mod server;
+pub mod rrdp;
 
 static INIT: Once = Once::new();
 
